@@ -239,3 +239,87 @@ Proof. apply prune_fuel_paths. Qed.
 
 Theorem prune_only_removes d d' : prune d = Some d' -> incl (d_comps d') (d_comps d).
 Proof. apply prune_fuel_incl. Qed.
+
+(** * Chains of orphans: one link per round, so no fixed number of rounds is enough. *)
+Lemma append_cancel_l (p a b : string) : (p ++ a)%string = (p ++ b)%string -> a = b.
+Proof. induction p as [|c p IH]; simpl; intro H; [exact H|]. inversion H. auto. Qed.
+
+Lemma unary_inj a b : unary a = unary b -> a = b.
+Proof.
+  revert b; induction a as [|a IH]; intros [|b] H; simpl in H; try discriminate; auto.
+  inversion H. f_equal. auto.
+Qed.
+
+Lemma chain_ref_inj a b : chain_ref a = chain_ref b -> a = b.
+Proof. unfold chain_ref. intro H. apply unary_inj. eapply append_cancel_l. exact H. Qed.
+
+Lemma chain_comp_ref i body :
+  comp_ref {| c_kind := KSchemas; c_name := ("N" ++ unary i)%string; c_body := body |} = chain_ref i.
+Proof. reflexivity. Qed.
+
+Lemma chain_refs i n : refs_comps (chain_comps i n) = map chain_ref (seq (S i) (Nat.pred n)).
+Proof.
+  revert i; induction n as [|n IH]; intro i; [reflexivity|].
+  cbn [chain_comps refs_comps flat_map]. fold (refs_comps (chain_comps (S i) n)). rewrite IH.
+  destruct n as [|n]; reflexivity.
+Qed.
+
+Lemma chain_keep_all refs i n :
+  (forall j, S i <= j -> j < S i + n -> In (chain_ref j) refs) ->
+  filter (keep_comp refs) (chain_comps (S i) n) = chain_comps (S i) n.
+Proof.
+  revert i; induction n as [|n IH]; intros i H; [reflexivity|].
+  cbn [chain_comps filter]. unfold keep_comp at 1. cbn [c_kind prunable kind_eqb negb orb].
+  rewrite chain_comp_ref.
+  assert (Hin : string_in (chain_ref (S i)) refs = true).
+  { apply string_in_In. apply H; auto with arith. rewrite <- plus_n_Sm. auto with arith. }
+  rewrite Hin. f_equal. apply IH. intros j H1 H2. apply H; auto with arith.
+  rewrite <- plus_n_Sm in *. simpl in *. auto with arith.
+Qed.
+
+Lemma chain_step i n : prune_step (chain_doc i (S n)) = chain_doc (S i) n.
+Proof.
+  unfold prune_step, remove_orphans, chain_doc, find_component_refs. cbn [d_paths d_comps refs_paths flat_map app].
+  f_equal. rewrite chain_refs. cbn [Nat.pred chain_comps filter].
+  unfold keep_comp at 1. cbn [c_kind prunable kind_eqb negb orb]. rewrite chain_comp_ref.
+  assert (Hout : string_in (chain_ref i) (map chain_ref (seq (S i) n)) = false).
+  { destruct (string_in _ _) eqn:E; [|reflexivity]. apply string_in_In in E. apply in_map_iff in E.
+    destruct E as [j [Hj Hin]]. apply chain_ref_inj in Hj. subst j. apply in_seq in Hin.
+    exfalso. destruct Hin as [Hlt _]. exact (Nat.nle_succ_diag_l _ Hlt). }
+  rewrite Hout. apply chain_keep_all. intros j H1 H2. apply in_map. apply in_seq. split; assumption.
+Qed.
+
+Lemma chain_fixed i : prune_step (chain_doc i 0) = chain_doc i 0.
+Proof. reflexivity. Qed.
+
+Lemma chain_bounded : forall b i n, prune_bounded b (chain_doc i (b + n)) = chain_doc (b + i) n.
+Proof.
+  induction b as [|b IH]; intros i n; [reflexivity|].
+  cbn [prune_bounded plus]. rewrite chain_step. rewrite IH. f_equal. rewrite <- plus_n_Sm. reflexivity.
+Qed.
+
+Lemma chain_length i n : List.length (chain_comps i n) = n.
+Proof. revert i; induction n as [|n IH]; intro i; simpl; auto. Qed.
+
+Lemma chain_prune_fuel : forall n f i, n < f -> prune_fuel f (chain_doc i n) = Some (chain_doc (n + i) 0).
+Proof.
+  induction n as [|n IH]; intros f i Hf; (destruct f as [|f]; [inversion Hf|]).
+  - reflexivity.
+  - cbn [prune_fuel]. rewrite chain_step. unfold chain_doc at 1 2. cbn [d_comps]. rewrite !chain_length.
+    replace (Nat.eqb n (S n)) with false by (symmetry; apply Nat.eqb_neq; apply Nat.neq_succ_diag_r).
+    rewrite IH by (apply Nat.succ_lt_mono; exact Hf). rewrite <- plus_n_Sm. reflexivity.
+Qed.
+
+(** Whatever the bound [b], there is a document (a chain of b+1 orphans) on which a loop of at most [b] rounds leaves a
+    component that nothing refers to, while the loop of the code removes everything. *)
+Theorem prune_bounded_refuted : forall b, exists d,
+  (exists c, In c (d_comps (prune_bounded b d)) /\ prunable (c_kind c) = true /\
+             ~ In (comp_ref c) (find_component_refs (prune_bounded b d)))
+  /\ option_map comp_keys (prune d) = Some [].
+Proof.
+  intro b. exists (chain_doc 0 (b + 1)). split.
+  - rewrite chain_bounded. eexists. split; [left; reflexivity|]. split; [reflexivity|]. intros [].
+  - unfold prune. unfold chain_doc at 1. cbn [d_comps]. rewrite chain_length.
+    rewrite chain_prune_fuel by auto. reflexivity.
+Qed.
+
